@@ -6,6 +6,7 @@ written and read again; TLC (Equiv.tla) decides the equivalence of the projectio
 precision of the format, and (Same.tla) that the second cycle changes nothing: projection and normalised INP text."""
 import concurrent.futures as cf
 import copy
+import json
 import os
 import random
 import re
@@ -40,10 +41,15 @@ def cond_tree(c):
     if name in ("AndCondition", "OrCondition"):
         return Dt({"op": S(name), "a": cond_tree(c._condition_1), "b": cond_tree(c._condition_2)})
     d = {"op": S(name), "rel": S(getattr(c, "_relation", ""))}
+    thr = getattr(c, "_threshold", 0.0)
     if hasattr(c, "_source_obj"):
         d["src"] = S(c._source_obj.name)
         d["attr"] = S(c._source_attr)
-    d["thr"] = N(getattr(c, "_threshold", 0.0))
+        if getattr(c._source_obj, "node_type", "") == "Tank" and c._source_attr in ("head", "pressure"):
+            # the INP format knows tank LEVELS only: a head (pressure) condition on a tank is the level condition it implies
+            d["attr"] = S("level")
+            thr = thr - (c._source_obj.elevation if c._source_attr == "head" else 0.0)
+    d["thr"] = N(thr)
     if hasattr(c, "_repeat"):
         d["rep"] = S(bool(c._repeat))
     return Dt(d)
@@ -129,7 +135,19 @@ def project(wn, version):
     for name, c in wn.controls():
         tree = Dt({"cond": cond_tree(c.condition), "then": L([action_tree(a) for a in c._then_actions]),
                    "else": L([action_tree(a) for a in (c._else_actions or [])]), "prio": N(int(c.priority))})
-        (rules if type(c).__name__ == "Rule" else ctl).append((str(c), tree))
+        # simple controls have no names in the file: ordered by their (normalised) content
+        if type(c).__name__ == "Rule":
+            rules.append((str(c), tree))
+        else:
+            # simple controls have no names in the file: ordered by their (normalised, rounded) content
+            cd = c.condition
+            thr = getattr(cd, "_threshold", 0.0)
+            src = getattr(cd, "_source_obj", None)
+            if src is not None and getattr(src, "node_type", "") == "Tank" and cd._source_attr == "head":
+                thr -= src.elevation
+            a = c._then_actions[0]
+            ctl.append((json.dumps([type(cd).__name__, getattr(src, "name", ""), str(getattr(cd, "_relation", "")), round(float(thr), 2),
+                                    a._target_obj.name, str(a._attribute), str(a._value)]), tree))
     srcs = sorted(((s.node_name, str(s.source_type), float(s.strength_timeseries.base_value), s.strength_timeseries.pattern_name or "")
                    for _, s in wn.sources()))
     return Dt({"nodes": Dt(nodes), "links": Dt(links), "curves": Dt(curves), "patterns": Dt(patterns), "options": Dt(opts),
@@ -213,6 +231,11 @@ def decorate(w, wn, s, rnd):
     if pipes and rnd.random() < 0.8:          # simple controls conditioned on a junction pressure / a tank level
         wn.add_control("cprs", C.Control(C.ValueCondition(wn.get_node(rnd.choice(js)), "pressure", rnd.choice(["<", ">"]), rnd.choice([12.5, 20.0, 35.0])),
                                          C.ControlAction(wn.get_link(rnd.choice(pipes)), "status", w.network.LinkStatus.Closed)))
+    tanks = [n for n in s["nodes"] if n["type"] == "T"]
+    if tanks and pipes and rnd.random() < 0.5:        # a simple control on the HEAD of a tank
+        t = rnd.choice(tanks)
+        wn.add_control("chead", C.Control(C.ValueCondition(wn.get_node(t["name"]), "head", ">", t["elev"] + t["maxl"] - 1.0),
+                                          C.ControlAction(wn.get_link(rnd.choice(pipes)), "status", w.network.LinkStatus.Closed)))
     for n in s["nodes"]:
         if n["type"] == "J" and len(n["dem"]) == 1 and rnd.random() < 0.4:
             wn.get_node(n["name"]).demand_timeseries_list[0].category = "single"     # one demand that carries a category
@@ -238,6 +261,11 @@ def one(job):
             n["has_pdd"] = False
     # [CONTROLS] has no place for the priority of a simple control (every control read from a file has the default 3)
     s["ctl"], s["rules"] = [dict(c, prio=3) for c in s["ctl"]], []
+    for n in s["nodes"]:              # a volume curve that ends exactly at the tank's maximum level
+        if n["type"] == "T" and n["vcurve"] and rnd.random() < 0.5:
+            below = [p for p in n["vcurve"] if p[0] < n["maxl"]]
+            if len(below) >= 2:
+                n["vcurve"] = below + [[n["maxl"], below[-1][1] + 40.0]]
     out = {"seed": seed, "unit": unit, "version": version, "features": sorted(netgen.features_of(s))}
     d = tempfile.mkdtemp(prefix="c12_", dir=common.scratch())
     try:
@@ -248,6 +276,10 @@ def one(job):
         f1, f2 = os.path.join(d, "a.inp"), os.path.join(d, "b.inp")
         w.network.write_inpfile(wn, f1, units=unit, version=version)
         wn1 = w.network.read_inpfile(f1)
+        if wn1.options.quality.parameter == "CHEMICAL" and rnd.random() < 0.5:
+            # the user switches the chemical's mass unit of a model that was read from a file: values stay what they are
+            wn1.options.quality.inpfile_units = "mg/L" if "ug" in str(wn1.options.quality.inpfile_units).lower() else "ug/L"
+            out["flipped"] = True       # the second file states another mass unit: its text differs, its model must not
         p1 = project(wn1, version)
         w.network.write_inpfile(wn1, f2, units=unit, version=version)
         wn2 = w.network.read_inpfile(f2)
@@ -288,9 +320,16 @@ def main(tier, replay):
             continue
         eq.append({"x": o["p0"], "y": o["p1"], "atol": num(1e-9), "rtol": num(2e-5), "prefix": "C12"})
         meq.append(o)
-        same.append({"clause": "C12.idempotent_model", "x": o["p1"], "y": o["p2"]})
-        same.append({"clause": "C12.idempotent_text", "x": o["t1"], "y": o["t2"]})
-        msame += [o, o]
+        if o.get("flipped"):
+            # another mass unit prints other digits: the second cycle is compared up to print precision instead of exactly
+            eq.append({"x": o["p1"], "y": o["p2"], "atol": num(1e-9), "rtol": num(2e-5), "prefix": "C12"})
+            meq.append(o)
+        else:
+            same.append({"clause": "C12.idempotent_model", "x": o["p1"], "y": o["p2"]})
+            msame.append(o)
+        if not o.get("flipped"):
+            same.append({"clause": "C12.idempotent_text", "x": o["t1"], "y": o["t2"]})
+            msame.append(o)
         ck.count("programs")
         ck.count("unit_" + o["unit"])
         ck.nontrivial([o["seed"], o["unit"], o["version"]])
